@@ -325,4 +325,6 @@ def run(ck):
         "translator": info["stats"], "translated_functions": info["functions"],
         "platform": plat, "fp_codes": fp,
         "traces_validated_against_impl": len(pats) * len(bins),
+        **({"explanation": "tie could not be rebuilt: " + tie_err.what, "obligations": 1, "discharged": 0}
+           if tie_err is not None else {}),
     })
